@@ -275,6 +275,12 @@ def fam_faults(seed, big):
                             "stdout": b, "stderr": c, "closed_std": closed, "cwd": hx(SP),
                             "fault": {"kind": kind, "nth": 1, "side": 1, "errno": er}})
                 i += 1
+            # (the table is full when a fresh pipe end is to be moved above 2: every fcntl of the attempt in turn)
+            for nth in (1, 2, 3, 4, 5, 6):
+                out.append({"id": "f%d-closed-fcntl%d" % (i, nth), "class": "fault-closed-std", "argv": vargv(), "stdin": a,
+                            "stdout": b, "stderr": c, "closed_std": closed,
+                            "fault": {"kind": "fcntl", "nth": nth, "side": 0, "errno": 24}})
+                i += 1
     # the parent is held up right after fork(): the child has long exec'ed when the parent goes on
     for (a, b, c) in (("none", "none", "none"), ("pipe", "pipe", "pipe")):
         for extra in ({"setpgid": True}, {"setpgid": True, "cwd": hx(SP)}, {}, {"detached": True, "setpgid": True}):
@@ -546,6 +552,10 @@ def fam_path(seed, big):
             else:
                 ents.append(rng.choice(kinds))
         mk(ents, rng.choice(["c", "x" * 255, "name.with.dots", "cmd4"]))
+    # a directory listed twice with another one in between, each holding the program: the first entry wins
+    mk(["ok", "ok", ("dup", 0)], "cmd14")
+    mk(["missing", "ok", "ok", ("dup", 1)], "cmd14")
+    mk(["noexec", "ok", ("dup", 0), "ok"], "cmd14")
     # values consisting only of empty entries
     for pe in ([""], ["", ""], ["", "", ""]):
         mk(pe, "cmd5")
